@@ -89,6 +89,24 @@ def gen_module(mod):
                 emit(t, expr_text(t.operand), "negate", "not removed")
             else:
                 emit(t, "(not %s)" % expr_text(t), "negate", "test negated")
+            if isinstance(n, ast.If):
+                # the test widened / narrowed by an unrelated condition over a name the function already reads
+                fn = n
+                while fn in parents and not isinstance(fn, ast.FunctionDef):
+                    fn = parents[fn]
+                if isinstance(fn, ast.FunctionDef):
+                    in_test = set(ast.unparse(x) for x in ast.walk(t) if isinstance(x, (ast.Name, ast.Attribute)))
+                    extras = []
+                    for a in fn.args.args[1:] if fn.args.args and fn.args.args[0].arg == "self" else fn.args.args:
+                        extras.append(a.arg)
+                    for x in ast.walk(fn):
+                        if isinstance(x, ast.Attribute) and isinstance(x.value, ast.Name) and x.value.id == "self" \
+                                and isinstance(x.ctx, ast.Load) and not isinstance(parents.get(x), ast.Call):
+                            extras.append("self." + x.attr)
+                    extras = [e for e in dict.fromkeys(extras) if e not in in_test][:2]
+                    for e in extras:
+                        emit(t, "(%s or not %s)" % (expr_text(t), e), "widen", "test widened with 'or not %s'" % e)
+                        emit(t, "(%s and bool(%s))" % (expr_text(t), e), "narrow", "test narrowed with 'and %s'" % e)
         elif isinstance(n, ast.Constant) and n not in docstrings:
             p = parents.get(n)
             if isinstance(p, ast.JoinedStr):
@@ -147,7 +165,10 @@ def gen_module(mod):
             emit(n, expr_text(n.operand), "negate", "not removed")
     # keep only mutants that compile
     good = []
+    only = set(filter(None, os.environ.get("AUTOMUT_OPS", "").split(",")))
     for m in out:
+        if only and m["op"] not in only:
+            continue
         new_src = src[:m["start"]] + m["new"] + src[m["end"]:]
         try:
             compile(new_src, path, "exec")
